@@ -359,6 +359,27 @@ def _stat_real(case):
                 if len(xs) > 1:
                     out["h5m_std"] = [np.array(f["stats/standard deviation"][k]).tolist() for k in ("u", "w")]
                 out["h5m_samples"] = [[np.array(f["samples"][str(i)][k]).tolist() for k in ("u", "w")] for i in range(len(xs))]
+            # mean only (the `elif mean:` branch uses `average`, not the StatCalculator)
+            fn3 = os.path.join(d, "mean_only.h5")
+            sl.save_to_hdf5(fn3, samples=False, mean=True, std=False)
+            with h5py.File(fn3, "r") as f:
+                out["h5_mean_only"] = np.array(f["stats/mean"]).tolist()
+                out["h5_mean_only_groups"] = sorted(f.keys())
+            # the export used by optimize_kl (`_export_operators`): samples+mean+std for n > 1, samples only otherwise
+            import nifty.cl.minimization.optimize_kl as okl
+            saved = (getattr(okl, "_output_directory", None), getattr(okl, "_save_strategy", None))
+            try:
+                okl._output_directory, okl._save_strategy = d, "latest"
+                os.makedirs(os.path.join(d, "sig"), exist_ok=True)
+                okl._export_operators(0, {"sig": ift.ScalingOperator(dom, 2.)}, sl, None)
+                with h5py.File(os.path.join(d, "sig", "latest.hdf5"), "r") as f:
+                    out["exp_groups"] = sorted(f.keys())
+                    out["exp_samples"] = [np.array(f["samples"][str(i)]).tolist() for i in range(len(xs))]
+                    if "stats" in f:
+                        out["exp_mean"] = np.array(f["stats/mean"]).tolist()
+                        out["exp_std"] = np.array(f["stats/standard deviation"]).tolist()
+            finally:
+                okl._output_directory, okl._save_strategy = saved
         except Exception as e:  # noqa: BLE001
             out["h5_error"] = type(e).__name__ + ":" + str(e)[:80]
         finally:
@@ -500,6 +521,19 @@ def _stat_oracle(case):
                         dict(sig, what="h5-multi-std"))
         if o["h5m_samples"] != [[[x, 2 * x + 1], [3 * x, 3 * (2 * x + 1)]] for x in xs]:
             return ("HDF5 multi-field samples differ from the sample list", dict(sig, what="h5-multi-samples"))
+        if not (_close(o["h5_mean_only"][0], m, sc) and _close(o["h5_mean_only"][1], m2, 2 * sc)) or o["h5_mean_only_groups"] != ["stats"]:
+            return (f"HDF5 export with mean only: {o['h5_mean_only']} (groups {o['h5_mean_only_groups']}) != arithmetic mean {float(m)}",
+                    dict(sig, what="h5-mean-only"))
+        import math
+        if o["exp_samples"] != [[2 * x, 2 * (2 * x + 1)] for x in xs]:
+            return ("operator export of optimize_kl: samples are not op(sample)", dict(sig, what="export-samples"))
+        if len(xs) > 1:
+            if "exp_mean" not in o or not (_close(o["exp_mean"][0], 2 * m, 2 * sc) and _close(o["exp_std"][0], 2 * math.sqrt(v), 2 * sc)
+                                           and _close(o["exp_std"][1], 4 * math.sqrt(v), 4 * sc)):
+                return (f"operator export of optimize_kl: mean/std {o.get('exp_mean')}/{o.get('exp_std')} are not the exact statistics of op(samples)",
+                        dict(sig, what="export-stats"))
+        elif o["exp_groups"] != ["samples"]:
+            return (f"operator export of a single sample writes groups {o['exp_groups']}", dict(sig, what="export-groups"))
     return None
 
 
